@@ -46,6 +46,8 @@ def make_scratch(base, edits):
 
 def apply_edit(m):
     """Returns {rel: text} or None if the anchor text is not present (not applicable)."""
+    if m.get("patch"):
+        return apply_patch(m)
     edits = {}
     for rel, old, new in m["edits"]:
         path = os.path.join(REPO, rel)
@@ -66,6 +68,33 @@ def apply_edit(m):
             raise RuntimeError(f"mutant {m['id']}: edited {rel} does not compile: {e}")
         edits[rel] = src
     return edits
+
+
+def apply_patch(m):
+    """A stored unified diff (seeded change): applied with `git apply` to copies of the files
+    it names; None if it no longer applies to the current tree."""
+    with open(m["patch"]) as f:
+        diff = f.read()
+    rels = [l[6:].strip() for l in diff.splitlines() if l.startswith("+++ b/")]
+    tmp = tempfile.mkdtemp(prefix="p-", dir="/dev/shm" if os.path.isdir("/dev/shm") else None)
+    try:
+        for rel in rels:
+            src = os.path.join(REPO, rel)
+            if not os.path.isfile(src):
+                return None
+            os.makedirs(os.path.dirname(os.path.join(tmp, rel)), exist_ok=True)
+            shutil.copy(src, os.path.join(tmp, rel))
+        p = subprocess.run(["git", "apply", "--whitespace=nowarn", os.path.abspath(m["patch"])], cwd=tmp, capture_output=True, text=True, env={**os.environ, "GIT_DIR": "/nonexistent", "GIT_CEILING_DIRECTORIES": "/"})
+        if p.returncode != 0:
+            return None
+        out = {}
+        for rel in rels:
+            with open(os.path.join(tmp, rel)) as f:
+                out[rel] = f.read()
+            compile(out[rel], rel, "exec")
+        return out
+    finally:
+        shutil.rmtree(tmp, ignore_errors=True)
 
 
 def _check(prop, root, base, tier="quick"):
@@ -143,6 +172,23 @@ def load_catalogue(props):
             m.setdefault("prop", fn[:-3].upper())
             if not props or m["prop"] in props:
                 muts.append(m)
+    # the seeded changes of independent authors are replayed as mutants too
+    import json
+
+    sd = os.path.join(VERIF, "seeded")
+    for d in sorted(os.listdir(sd)) if os.path.isdir(sd) else []:
+        mp = os.path.join(sd, d, "meta.json")
+        if not os.path.isfile(mp):
+            continue
+        with open(mp) as f:
+            meta = json.load(f)
+        prop = (meta.get("breaks_property") or d[:3]).upper()
+        cb = str(meta.get("caught_by") or "")
+        rule = cb.split()[0].split(".")[1] if cb.startswith(prop + ".") else None
+        if cb.startswith("missed"):
+            continue
+        if not props or prop in props:
+            muts.append(dict(id=f"seed:{d}", prop=prop, rule=rule, desc=(meta.get("summary") or "")[:100], patch=os.path.join(sd, d, "patch.diff")))
     return muts
 
 
